@@ -422,7 +422,7 @@ def st_get_raw(ctx: Ctx):
                      st.lists(st.sampled_from(list("ab \n\t=()x1")), min_size=1, max_size=60).map("".join))
 
     def with_range(t: str):
-        return st.tuples(st.integers(0, len(t)), st.integers(0, len(t)), st.sampled_from([0, 0, 0, 1, 2, 3])).map(
+        return st.tuples(st.integers(0, len(t)), st.integers(0, len(t)), st.sampled_from([0, 0, 0, 1, 2, 3, 4])).map(
             lambda p: {"text": t, "lo": min(p[:2]), "hi": max(p[:2]), "file": p[2]}
         )
 
@@ -452,6 +452,27 @@ def check_get_raw(data: dict, lab: Labels) -> None:
         require(type(s) is CodeOrigin and s.get_raw() == text[lo:hi], "hull-get_raw",
                 f"{s.get_raw()!r} != {text[lo:hi]!r}")
     require(src.get_raw() == text, "source-raw", "")
+    if data.get("file") == 4:
+        # a text file that is not UTF-8 / has its first non-ASCII character far from the start: the source text is
+        # what the file says in its encoding (combinations the library's encoding detection gets right on the pinned tree)
+        import tempfile
+        from pathlib import Path
+
+        from pyoak.origin import TextFileSource
+
+        enc, tail = [("latin-1", "café über naïve façade"), ("cp1252", "déjà vu été"), ("utf-8", "café über 中文")][(lo + hi) % 3]
+        n = [10, 1100, 5000][(lo * 2 + hi) % 3]
+        ftext = ("line of plain ascii text 0123456789\n" * (n // 36 + 1))[:n] + tail + "\nend\n"
+        a, z = sorted(((lo * 131) % (len(ftext) + 1), (hi * 197 + len(ftext) - 30) % (len(ftext) + 1)))
+        with tempfile.TemporaryDirectory(prefix="pbt-c15-") as d:
+            fp = Path(d) / "unit.txt"
+            fp.write_bytes(ftext.encode(enc))
+            fs = TextFileSource(fp)
+            fo = CodeOrigin(source=fs, position=CodeRange(start=CodePoint(*og.point_of(ftext, a)), end=CodePoint(*og.point_of(ftext, z))))
+            require(fs.get_raw() == ftext, "source-raw", f"{enc} file with {n} ASCII characters first: {fs.get_raw()!r:.60}")
+            require(fo.get_raw() == ftext[a:z], "get_raw-slice", f"{enc} file, {a}-{z}: {fo.get_raw()!r:.60}")
+        lab.tag(f"encoded-text-file-{enc}-{n}")
+        return
     if data.get("file") and text.isascii() and "\r" not in text and text:
         # the same slice through file-backed sources (text file, plain file and zip member: bytes)
         import tempfile
